@@ -35,7 +35,8 @@ BUDGET = {"quick": 200, "thorough": 1800}
 
 
 def cases(tier, seed):
-    out = [{"sub": "group", "i": i} for i in range(128 if tier == "quick" else 4000)]
+    out = [{"sub": "bigresample", "i": i} for i in range(1 if tier == "quick" else 3)]
+    out += [{"sub": "group", "i": i} for i in range(128 if tier == "quick" else 4000)]
     out += [{"sub": "hist", "i": i} for i in range(256 if tier == "quick" else 16000)]
     return out
 
@@ -209,6 +210,20 @@ def run_hist(case, ctx):
             ctx.check("split_conservation", close(fin2, {k: v / mt for k, v in marginal(match, set(range(k_mid))).items()}) and abs(sum(fin2.values()) - 1) < 1e-9,
                       "split_frequency_dict(desired_measurement) final part is not the renormalised matching marginal",
                       dict(wit, k_mid=k_mid, desired=desired, fin=fin2))
+        # arbitrary index lists (any order, gaps): desired_measurement[k] refers to indices[k]
+        idx_list = pr.sample(range(n), pr.randint(1, n - 1))
+        des = "".join(pr.choice("01") for _ in idx_list)
+        want = dict(zip(idx_list, des))
+        match2 = {k: v for k, v in counts.items() if all(k[i] == bb for i, bb in want.items())}
+        midx = split_frequency_dict(dict(probs), list(idx_list))[0]
+        ctx.check("split_conservation", close(midx, {k: v / tot for k, v in marginal(counts, set(range(n)) - set(idx_list)).items()}),
+                  "split_frequency_dict: first part is not the marginal on the listed indices", dict(wit, indices=idx_list, mid=midx))
+        if match2:
+            _, fin3 = split_frequency_dict(dict(probs), list(idx_list), desired_measurement=des)
+            mt2 = sum(match2.values())
+            ctx.check("split_conservation", close(fin3, {k: v / mt2 for k, v in marginal(match2, set(idx_list)).items()}) and abs(sum(fin3.values()) - 1) < 1e-9,
+                      "split_frequency_dict(indices in arbitrary order, desired_measurement) is not the distribution post-selected on desired[k] at indices[k]",
+                      dict(wit, indices=idx_list, desired=des, fin=fin3))
         a, b = split_frequency_dict_for_last_n_digits(dict(probs), n - k_mid)
         ctx.check("split_conservation", close(a, mid) and close(b, fin), "split_frequency_dict_for_last_n_digits parts are not the two marginals",
                   dict(wit, k_mid=k_mid, first=a, last=b))
@@ -258,5 +273,23 @@ def run_hist(case, ctx):
     ctx.sample({"sub": "hist", "counts": counts, "removed": sorted(rem), "post_select": sel})
 
 
+def run_bigresample(case, ctx):
+    """Shot numbers at and beyond the resampler's internal chunk size (10**7), incl. exact multiples."""
+    from tangelo.toolboxes.post_processing.bootstrapping import get_resampled_frequencies
+    rng, pr, s = case_rng(ctx.seed, "C18", "bigresample", case["i"])
+    counts = rand_counts(pr, 2, kmax=4, cmax=9)
+    tot = sum(counts.values())
+    probs = {k: v / tot for k, v in counts.items()}
+    for ns in ([10 ** 7] if case["i"] == 0 else [2 * 10 ** 7, 10 ** 7 + 1][case["i"] - 1: case["i"]]):
+        np.random.seed(s)
+        rf = get_resampled_frequencies(dict(probs), ns)
+        tsum = sum(rf.values())
+        dev = max(abs(rf.get(k, 0) - p) / max(math.sqrt(p * (1 - p) / ns), 1e-12) for k, p in probs.items()) if len(probs) > 1 else 0.0
+        ctx.check("resample", abs(tsum - 1) < 1e-9 and set(rf) <= set(probs) and dev < 7,
+                  f"resampling with ncount={ns} (chunked sampling) does not give ncount shots of the original distribution (sum of frequencies {tsum})",
+                  {"counts": counts, "ncount": ns, "got": rf})
+        ctx.nontrivial(("bigresample", ns, sorted(counts.items())))
+
+
 def run_case(case, ctx):
-    {"group": run_group, "hist": run_hist}[case["sub"]](case, ctx)
+    {"group": run_group, "hist": run_hist, "bigresample": run_bigresample}[case["sub"]](case, ctx)
